@@ -10,6 +10,10 @@ using namespace chaiscript;
 struct Base { int tag; explicit Base(int t = 1) : tag(t) {} virtual ~Base() = default; };
 struct Derived : Base { explicit Derived(int t = 2) : Base(t) {} };
 struct Other { int tag = 3; };
+// multiple inheritance: Second is NOT at offset 0 of Both, a conversion to it must adjust the pointer
+struct First { int a; explicit First(int t = 1) : a(t) {} virtual ~First() = default; };
+struct Second { int b; explicit Second(int t = 2) : b(t) {} virtual ~Second() = default; };
+struct Both : First, Second { explicit Both(int t = 50) : First(t), Second(t + 1000) {} };
 
 static std::string g_log;
 template<typename T> static std::string desc(const T &v);
@@ -20,6 +24,7 @@ template<> std::string desc<std::string>(const std::string &v) { return "string:
 template<> std::string desc<Base>(const Base &v) { return "base:" + std::to_string(v.tag); }
 template<> std::string desc<Derived>(const Derived &v) { return "derived:" + std::to_string(v.tag); }
 template<> std::string desc<Other>(const Other &v) { return "other:" + std::to_string(v.tag); }
+template<> std::string desc<Second>(const Second &v) { return "second:" + std::to_string(v.b); }
 static std::string descbv(const Boxed_Value &bv) { return std::string("boxed:") + (bv.is_undef() ? "undef" : bv.get_type_info().bare_name()); }
 
 // ---- parameter forms: each P<id> has a type and a way to describe the received argument
@@ -34,9 +39,11 @@ static std::string descbv(const Boxed_Value &bv) { return std::string("boxed:") 
   X(17, std::shared_ptr<Base>, "base sp", desc<Base>(*a)) X(18, std::shared_ptr<const Base>, "base spc", desc<Base>(*a)) \
   X(19, const Derived &, "derived cref", desc<Derived>(a)) X(20, Derived &, "derived ref", desc<Derived>(a)) \
   X(21, const Other &, "other cref", desc<Other>(a)) X(22, Boxed_Value, "boxedValue", descbv(a)) X(23, const Boxed_Number &, "boxedNumber", descbv(a.bv)) \
-  X(24, long, "long val", "long:" + std::to_string(a)) X(25, float, "float val", "float:" + std::to_string(static_cast<long long>(a * 4)))
+  X(24, long, "long val", "long:" + std::to_string(a)) X(25, float, "float val", "float:" + std::to_string(static_cast<long long>(a * 4))) \
+  X(26, const Second &, "second cref", desc<Second>(a)) X(27, Second &, "second ref", desc<Second>(a)) X(28, Second *, "second ptr", desc<Second>(*a)) \
+  X(29, std::shared_ptr<Second>, "second sp", desc<Second>(*a))
 
-static const int NPARAM = 26;
+static const int NPARAM = 30;
 
 template<int I> struct PT;
 #define X(I, T, NAME, D) template<> struct PT<I> { using type = T; static std::string name() { return NAME; } static std::string d(T a) { return D; } };
@@ -82,7 +89,7 @@ static void reg_and_note(ChaiScript &chai, int fid) {
 static void reg(ChaiScript &chai, int fid) {
   switch (fid) {
 #define R(I) case I: reg1<I>(chai); break;
-    R(0) R(1) R(2) R(3) R(4) R(5) R(6) R(7) R(8) R(9) R(10) R(11) R(12) R(13) R(14) R(15) R(16) R(17) R(18) R(19) R(20) R(21) R(22) R(23) R(24) R(25)
+    R(0) R(1) R(2) R(3) R(4) R(5) R(6) R(7) R(8) R(9) R(10) R(11) R(12) R(13) R(14) R(15) R(16) R(17) R(18) R(19) R(20) R(21) R(22) R(23) R(24) R(25) R(26) R(27) R(28) R(29)
 #undef R
     case 100: reg2<0, 0, 100>(chai); break; case 101: reg2<5, 5, 101>(chai); break; case 102: reg2<13, 0, 102>(chai); break;
     case 103: reg2<14, 5, 103>(chai); break; case 104: reg2<10, 0, 104>(chai); break; case 105: reg2<22, 0, 105>(chai); break;
@@ -93,11 +100,11 @@ static void reg(ChaiScript &chai, int fid) {
 }
 
 // ---- value kinds
-static int gi = 41; static const int gci = 42; static Base gb(11); static const Base gcb(12); static Derived gd(13); static std::string gs = "gs";
+static int gi = 41; static const int gci = 42; static Base gb(11); static const Base gcb(12); static Derived gd(13); static std::string gs = "gs"; static Both gboth(52); static const Both gcboth(54);
 static const char *KINDS[] = {"int_var", "int_const", "int_ref", "int_cref", "double_var", "double_const", "bool_var", "string_var", "string_const",
                               "string_ref", "base_var", "base_const", "base_ref", "base_cref", "base_sp", "base_spc", "base_ptr", "derived_var", "derived_const",
-                              "derived_ref", "derived_sp", "other_var", "long_var", "float_var", "undef"};
-static const int NKINDS = 25;
+                              "derived_ref", "derived_sp", "other_var", "long_var", "float_var", "undef", "both_var", "both_ref", "both_sp", "both_ptr", "both_cref"};
+static const int NKINDS = 30;
 static Boxed_Value make(const std::string &k) {
   if (k == "int_var") return var(7); if (k == "int_const") return const_var(8); if (k == "int_ref") return var(std::ref(gi)); if (k == "int_cref") return var(std::cref(gci));
   if (k == "double_var") return var(2.5); if (k == "double_const") return const_var(3.5); if (k == "bool_var") return var(true);
@@ -106,6 +113,8 @@ static Boxed_Value make(const std::string &k) {
   if (k == "base_sp") return var(std::make_shared<Base>(23)); if (k == "base_spc") return var(std::shared_ptr<const Base>(std::make_shared<Base>(24))); if (k == "base_ptr") return var(&gb);
   if (k == "derived_var") return var(Derived(31)); if (k == "derived_const") return const_var(Derived(32)); if (k == "derived_ref") return var(std::ref(gd));
   if (k == "derived_sp") return var(std::make_shared<Derived>(33)); if (k == "other_var") return var(Other());
+  if (k == "both_var") return var(Both(51)); if (k == "both_ref") return var(std::ref(gboth)); if (k == "both_sp") return var(std::make_shared<Both>(53));
+  if (k == "both_ptr") return var(&gboth); if (k == "both_cref") return var(std::cref(gcboth));
   if (k == "long_var") return var(9L); if (k == "float_var") return var(1.5f); if (k == "undef") return Boxed_Value();
   throw std::runtime_error("kind " + k);
 }
@@ -127,7 +136,7 @@ template<int I> static std::string cast1(ChaiScript &chai, const Boxed_Value &v)
 static std::string cast(ChaiScript &chai, int pid, const Boxed_Value &v) {
   switch (pid) {
 #define R(I) case I: return cast1<I>(chai, v);
-    R(0) R(1) R(2) R(3) R(4) R(5) R(6) R(7) R(8) R(9) R(10) R(11) R(12) R(13) R(14) R(15) R(16) R(17) R(18) R(19) R(20) R(21) R(22) R(23) R(24) R(25)
+    R(0) R(1) R(2) R(3) R(4) R(5) R(6) R(7) R(8) R(9) R(10) R(11) R(12) R(13) R(14) R(15) R(16) R(17) R(18) R(19) R(20) R(21) R(22) R(23) R(24) R(25) R(26) R(27) R(28) R(29)
 #undef R
   }
   return "bad-op";
@@ -144,6 +153,8 @@ int main() {
         // the descriptors the model needs, printed from the real Type_Info flags
         ChaiScript chai;
         chai.add(base_class<Base, Derived>());
+        chai.add(base_class<First, Both>());
+        chai.add(base_class<Second, Both>());
         for (int k = 0; k < NKINDS; ++k) {
           Boxed_Value v = make(KINDS[k]);
           const Type_Info &ti = v.get_type_info();
@@ -153,10 +164,14 @@ int main() {
       } else if (w.size() == 3 && w[0] == "cast") {
         ChaiScript chai;
         chai.add(base_class<Base, Derived>());
+        chai.add(base_class<First, Both>());
+        chai.add(base_class<Second, Both>());
         out = cast(chai, std::stoi(w[2]), make(w[1]));
       } else if (w.size() == 3 && w[0] == "disp") {
         ChaiScript chai;
         chai.add(base_class<Base, Derived>());
+        chai.add(base_class<First, Both>());
+        chai.add(base_class<Second, Both>());
         for (auto &f : vh::fields(w[1], ',')) reg_and_note(chai, std::stoi(f));
         std::string order;
         {
